@@ -217,7 +217,13 @@ def make_soil(ss):
         for lay in ss.get("layers") or []:
             soil.add_layer(*lay)
         for lay in ss.get("texture") or []:
-            soil.add_layer_from_texture(*lay)
+            if len(lay) > 5:
+                # a compacted / loosened layer: the public pedotransfer method with a density factor, its values handed to add_layer
+                thick, sand, clay, om, pen, df = lay
+                wp, fc, sat, ks = soil.calculate_soil_hydraulic_properties(sand / 100, clay / 100, om, df)
+                soil.add_layer(thick, wp, fc, sat, ks, pen)
+            else:
+                soil.add_layer_from_texture(*lay)
     return soil
 
 
@@ -261,6 +267,13 @@ def make_irr(irs):
     if irs is None:
         return None
     kw = dict(irs.get("kw") or {})
+    if irs.get("default_schedule_after_inplace_fill"):
+        # history: the user built a schedule strategy WITHOUT a table and filled its (default) table in place, row by row; a second
+        # strategy object built afterwards without a table must still have an empty schedule
+        other = IrrigationManagement(irrigation_method=3)
+        for d, x in irs["default_schedule_after_inplace_fill"]:
+            other.Schedule.loc[len(other.Schedule)] = [pd.Timestamp(d.replace("/", "-")), float(x)]
+        return IrrigationManagement(irrigation_method=3, **kw)
     if irs.get("schedule") is not None:
         sch = irs["schedule"]
         df = pd.DataFrame(
@@ -335,7 +348,9 @@ def make_co2(cs):
         return None
     kw = {}
     if "constant_conc" in cs:
-        kw["constant_conc"] = bool(cs["constant_conc"])
+        cc = cs["constant_conc"]
+        # the switch in the spellings a user may pass: Python bool, numpy.True_ / numpy.False_ (read from a table), 1 / 0
+        kw["constant_conc"] = np.True_ if cc == "np_true" else np.False_ if cc == "np_false" else (cc if isinstance(cc, int) and not isinstance(cc, bool) else bool(cc))
     if "current_concentration" in cs:
         kw["current_concentration"] = float(cs["current_concentration"])
     if "ref_concentration" in cs:
